@@ -5,10 +5,10 @@ from checks import _numtostr as N
 
 META = {
     "property_id": "C11",
-    "technique": "round trip executed on the real code (NumberToString(17|9) then StringToNumber, bits in = bits out) over boundary sets and uniform bit patterns, all 2^32 floats in the thorough tier; the formatter half is cross-checked against the Lean model and an exact-rational reference reading (IEEE 754 round-half-even of the decimal value); Lean theorems: the formatter half in full (17/9-digit text = reference text for every bit pattern; 17/9 correctly rounded digits identify the value), the decomposition, integers below 2^53 through the real parser model; the parser half is tested",
+    "technique": "round trip executed on the real code (NumberToString(17|9) then StringToNumber, bits in = bits out) over boundary sets and uniform bit patterns, all 2^32 floats in the thorough tier; the formatter half is cross-checked against the Lean model and an exact-rational reference reading (IEEE 754 round-half-even of the decimal value); Lean theorems: the formatter half in full (17/9-digit text = reference text for every bit pattern; 17/9 correctly rounded digits identify the value), the decomposition, integers below 2^53 through the real parser model, and for doubles the whole round trip through the real parser model (roundtrip17); for floats the parser half is tested",
     "level": "exploration",
     "design_ref": "DESIGN.md §6 C11, notes/design-numtostr.md",
-    "text": "The FORMATTER HALF is proved (kernel-checked): for every finite double (float) the model of NumberToString with 17 (9) significant digits raises no fault and prints exactly the reference %.17g (%.9g) text (format17_is_reference, from C10's format_eq_spec), and that text, read exactly and rounded to nearest-even, is the original bit pattern (spec_identifies17 / spec_identifies9: 2^53 < 10^16, 2^24 < 10^8; identifies17 / identifies9). Hence RoundTrip17/9 hold for ANY parser that rounds correctly on these numerals (roundtrip17_of_parser). NOT proved: that Digit::StringToNumber does (ParsesExactly17/9, StrToNum area) - except for integers of magnitude below 2^53, where the real parser model returns exactly the integer (roundtrip17_integers_parser). For the parser half the verdict of a run rests on executing the round trip on the real code: quick = boundary sets (powers of two and ten +-2 ulp, every binade, subnormals, short mantissas, short decimals) and 200k uniform doubles under ASan/UBSan plus 3.2M uniform doubles and 16M floats unsanitized; thorough = 24M doubles and all 2^32 float bit patterns (exhaustive, unsanitized -O2 build).",
+    "text": "Proved (kernel-checked): the formatter half in full (identifies17 / identifies9: no fault, text = reference %.17g / %.9g text, which read exactly and rounded to nearest-even is the original bits), and for DOUBLES the whole property through the real parser model: roundtrip17 : RoundTrip17 parseDouble - for every finite double NumberToString(17) raises no fault and StringToNumber plus the callers' conversion returns the original bits (parsesExactly17: shape and 1/32-ulp margin of every %.17g text - shape17_format, marginText_format, text17_format - and the parser-side theorem parse_exact17 of the StrToNum area, which covers every mantissa: analytic error bound above a width threshold, a kernel-evaluated table of 16 996 (mantissa, exponent) pairs below it). Three numerals, 1e-273, 1e-286, 1e-292, are parsed one ulp low although 0.04-0.07 ulp from the tie (within C09's one-ulp bound); they are not %.17g outputs (exc_bits: the nearest doubles print as 1.0000000000000001e-273, ...). NOT proved: floats (reduced by roundtrip9_of_close to ParsesClose9, open). For floats the verdict of a run rests on executing the round trip on the real code; for doubles the executed round trip is a second line: quick = boundary sets (powers of two and ten +-2 ulp, every binade, subnormals, short mantissas, short decimals) and 200k uniform doubles under ASan/UBSan plus 3.2M uniform doubles and 16M floats unsanitized; thorough = 24M doubles and all 2^32 float bit patterns (exhaustive, unsanitized -O2 build).",
     "note": "Testing, not proof, for everything except the listed theorems. Trusted: the harness, g++/libc for nothing but memcpy of bits; the Lean reference reading (FmtSpec.readBits) is used only to attribute a failure to the formatter or the parser half. The exhaustive float sweep runs on a non-sanitized -O2 build of the same headers.",
 }
 
@@ -34,17 +34,21 @@ THEOREMS = [
     "Qentem.Props.C11.roundtrip9_of_parser",
     "Qentem.Props.C11.text_margin17",
     "Qentem.Props.C11.text_margin9",
+    "Qentem.Props.C11.exc_bits",
+    "Qentem.Props.C11.text17_format",
+    "Qentem.Props.C11.parsesExactly17",
+    "Qentem.Props.C11.roundtrip17",
+    "Qentem.Props.C11.roundtrip9_of_close",
     "Qentem.Props.C11.identifies_boundary_instances",
 ]
 OPEN = [
-    "Qentem.Props.C11.RoundTrip17 / RoundTrip9 (for the real parser): open; the formatter half is proved (identifies17 / identifies9), so only the parser half below is missing (roundtrip17_of_parser / roundtrip9_of_parser)",
-    "Qentem.Props.C11.ParsesExactly17 / ParsesExactly9 (equivalently ParsesReference17/9; parser half, belongs to the StrToNum area): open; C09 proves exact reading for the integer shape only (used in roundtrip17_integers_parser)",
+    "Qentem.Props.C11.RoundTrip9 (float -> %.9g -> StringToNumber (double) -> float(double)): reduced by roundtrip9_of_close to ParsesClose9: the parser's double lies within 1/64 float ulp of the 9-digit text's value (no correct rounding needed: a 9-digit decimal can sit arbitrarily close to a double rounding boundary, so the margin route of the double case does not apply); ParsesClose9 for parseDouble is open (StrToNum area: a no-margin 'within a few double ulps' bound suffices)",
 ]
 
 
 def run(ctx):
     ctx.gen_constants(["NumToStr"])
-    ctx.prove(["Qentem.Props.C11"], THEOREMS, open_statements=OPEN)
+    ctx.prove(["Qentem.Props.C11", "Qentem.Props.C11Closed"], THEOREMS, open_statements=OPEN)
     drv = ctx.build_driver()
     exe = ctx.build_harness("numtostr_harness.cpp")
     fast = ctx.build_harness("numtostr_harness.cpp", flags=core.FAST_FLAGS, tag="fast")
@@ -152,7 +156,7 @@ def run(ctx):
               tested["--rt-floats"], tested["--rt-floats"])
     ctx.cov["value_distribution"] = dist
     ctx.assumptions += ["a parsed Natural/Integer result is converted to double as the library's Value/JSON layers do; a float is obtained by (float)double"]
-    ctx.notes += ["level: exploration - the round trip itself is tested, not proved; formatter half proved (identifies17/9); the parser half (StringToNumber rounds correctly on %.17g numerals) is tested, not proved"]
+    ctx.notes += ["level: exploration - proved: formatter half (identifies17/9) and the whole double round trip through the real parser model (roundtrip17); tested: all floats (%.9g: reduced to ParsesClose9)"]
 
 
 FINISH = dict(level="exploration",
